@@ -9,7 +9,10 @@ Exception); two consecutive imap_unordered on one pool; abandon, leave the
 context, re-enter and run to completion; abandon WITHOUT closing the
 generator, re-enter, and close the stale generator in the middle of the second
 iteration (what garbage collection does); two pools alive at the same time
-and consumed in lock step by one thread.
+and consumed in lock step by one thread; an iteration whose mapped function
+fails on one input is abandoned and the pool reused at once.  Input elements
+are integers, NumPy arrays or objects equal to everything (the pool must not
+compare its inputs with anything).
 Oracle: completion => Counter(results) == Counter(f(x)) and termination; no
 reachable state is a deadlock (all live participants parked, none enabled) in
 any scenario, including the failing function; after the context is left every
@@ -53,11 +56,26 @@ ASSUMPTIONS = [
 ]
 
 SCENARIOS = ["complete", "abandon", "fail", "fail_base", "twice",
-             "abandon_reuse", "stale_close", "two_pools"]
+             "abandon_reuse", "stale_close", "two_pools", "abandon_fail_reuse"]
 
 
 class Boom(Exception):
     pass
+
+
+class AlwaysEqual:
+    """Equal to everything (like unittest.mock.ANY)."""
+
+    def __init__(self, i):
+        self.i = i
+
+    def __eq__(self, other):
+        return True
+
+    def __ne__(self, other):
+        return False
+
+    __hash__ = None
 
 
 class BaseBoom(BaseException):
@@ -104,6 +122,8 @@ def strategy_schedules(draw, tier):
         "k": k,
         "n2": n2,
         "t2": draw(st.integers(1, 2)),
+        "inputs": draw(st.sampled_from(["int", "int", "int", "array",
+                                        "always-equal"])),
         "choices": choices
     }
 
@@ -114,14 +134,33 @@ def drive(case, pool_cls, ctx_fail, sleeps=None):
     t, n, scenario, k, n2 = (case["t"], case["n"], case["scenario"],
                              case["k"], case["n2"])
 
+    kind = case.get("inputs", "int")
+
+    def src(rng):
+        """The input elements: integers, or objects with an __eq__ of their
+        own (the pool must not compare them with anything)."""
+        if kind == "array":
+            import numpy as np
+            return [np.array([i, i]) for i in rng]
+        if kind == "always-equal":
+            return [AlwaysEqual(i) for i in rng]
+        return rng
+
+    def dec(x):
+        if kind == "array":
+            return int(x[0])
+        if kind == "always-equal":
+            return x.i
+        return x
+
     def wrap(f):
-        if not sleeps:
-            return f
 
         def g(x):
-            d = sleeps[x % len(sleeps)]
-            if d:
-                time.sleep(d / 1e6)
+            x = dec(x)
+            if sleeps:
+                d = sleeps[x % len(sleeps)]
+                if d:
+                    time.sleep(d / 1e6)
             return f(x)
 
         return g
@@ -130,12 +169,12 @@ def drive(case, pool_cls, ctx_fail, sleeps=None):
     pool = pool_cls(t)
     if scenario == "complete":
         with pool as p:
-            out = list(p.imap_unordered(wrap(f_tag), range(n)))
+            out = list(p.imap_unordered(wrap(f_tag), src(range(n))))
         check_multiset(ctx_fail, out, n, "complete", case)
     elif scenario == "twice":
         with pool as p:
-            out = list(p.imap_unordered(wrap(f_tag), range(n)))
-            out2 = list(p.imap_unordered(wrap(f_tag), range(100, 100 + n2)))
+            out = list(p.imap_unordered(wrap(f_tag), src(range(n))))
+            out2 = list(p.imap_unordered(wrap(f_tag), src(range(100, 100 + n2))))
         check_multiset(ctx_fail, out, n, "twice/first", case)
         check_multiset(ctx_fail, out2, n2, "twice/second", case, base=100)
     elif scenario == "two_pools":
@@ -144,8 +183,8 @@ def drive(case, pool_cls, ctx_fail, sleeps=None):
         # ends while the other is in the middle of its iteration
         pool2 = pool_cls(case.get("t2", 1))
         with pool as p, pool2 as q:
-            a = iter(p.imap_unordered(wrap(f_tag), range(n)))
-            b = iter(q.imap_unordered(wrap(f_tag), range(100, 100 + n2)))
+            a = iter(p.imap_unordered(wrap(f_tag), src(range(n))))
+            b = iter(q.imap_unordered(wrap(f_tag), src(range(100, 100 + n2))))
             out, out2 = [], []
             live = [[a, out], [b, out2]]
             while live:
@@ -156,9 +195,32 @@ def drive(case, pool_cls, ctx_fail, sleeps=None):
                         live.remove(pair)
         check_multiset(ctx_fail, out, n, "two-pools/first", case)
         check_multiset(ctx_fail, out2, n2, "two-pools/second", case, base=100)
+    elif scenario == "abandon_fail_reuse":
+        # the first iteration is abandoned (or ends with the failure) while an
+        # input on which the mapped function fails may still be waiting for a
+        # worker of that iteration; the pool is reused at once and the late
+        # failure of the OLD iteration must not disturb the new one
+        j = (k + 1) % max(n, 1)
+        try:
+            with pool as p:
+                it = iter(p.imap_unordered(wrap(make_failing(j)),
+                                           src(range(n))))
+                for _ in range(k):
+                    try:
+                        next(it)
+                    except StopIteration:
+                        break
+                it.close()
+        except Boom:
+            pass
+        with pool as p:
+            out2 = list(p.imap_unordered(wrap(f_tag),
+                                         src(range(100, 100 + n2))))
+        check_multiset(ctx_fail, out2, n2, "reuse-after-abandoned-failure",
+                       case, base=100)
     elif scenario in ("abandon", "abandon_reuse"):
         with pool as p:
-            it = iter(p.imap_unordered(wrap(f_tag), range(n)))
+            it = iter(p.imap_unordered(wrap(f_tag), src(range(n))))
             got = []
             for _ in range(k):
                 try:
@@ -173,7 +235,7 @@ def drive(case, pool_cls, ctx_fail, sleeps=None):
         if scenario == "abandon_reuse":
             with pool as p:
                 out2 = list(p.imap_unordered(wrap(f_tag),
-                                             range(100, 100 + n2)))
+                                             src(range(100, 100 + n2))))
             check_multiset(ctx_fail, out2, n2, "reuse-after-abandon", case,
                            base=100)
     elif scenario == "stale_close":
@@ -181,7 +243,7 @@ def drive(case, pool_cls, ctx_fail, sleeps=None):
         # is still referenced); it is closed (as garbage collection would do)
         # in the middle of a second iteration on the re-entered pool
         with pool as p:
-            it = iter(p.imap_unordered(wrap(f_tag), range(n)))
+            it = iter(p.imap_unordered(wrap(f_tag), src(range(n))))
             for _ in range(min(k, n)):
                 try:
                     next(it)
@@ -189,7 +251,7 @@ def drive(case, pool_cls, ctx_fail, sleeps=None):
                     break
         with pool as p:
             out2 = []
-            it2 = iter(p.imap_unordered(wrap(f_tag), range(100, 100 + n2)))
+            it2 = iter(p.imap_unordered(wrap(f_tag), src(range(100, 100 + n2))))
             closed = False
             for r in it2:
                 out2.append(r)
@@ -207,7 +269,7 @@ def drive(case, pool_cls, ctx_fail, sleeps=None):
         try:
             with pool as p:
                 for r in p.imap_unordered(wrap(make_failing(j, exc_type)),
-                                          range(n)):
+                                          src(range(n))):
                     got.append(r)
         except (Boom, BaseBoom) as exc:
             obs["raised"] = repr(exc)
@@ -297,7 +359,8 @@ def run_schedules(case, ctx):
         ctx.label("timeouts-fired")
     if s.worker_switches() >= 2 or case["scenario"] in (
             "abandon", "fail", "fail_base", "abandon_reuse", "stale_close",
-            "two_pools"):
+            "two_pools", "abandon_fail_reuse") or case.get(
+                "inputs", "int") != "int":
         h = hashlib.blake2b("|".join(s.trace).encode(),
                             digest_size=6).hexdigest()
         ctx.nontrivial([
@@ -312,7 +375,8 @@ def enumerate_dfs(tier):
         for n in range(0, 4):
             for scenario in SCENARIOS:
                 ks = [0]
-                if scenario in ("abandon", "abandon_reuse", "stale_close"):
+                if scenario in ("abandon", "abandon_reuse", "stale_close",
+                                "abandon_fail_reuse"):
                     ks = list(range(0, n + 1))
                 elif scenario in ("fail", "fail_base"):
                     ks = list(range(0, max(n, 1)))
@@ -323,8 +387,8 @@ def enumerate_dfs(tier):
                         "scenario": scenario,
                         "k": k,
                         "n2": 2 if scenario in ("twice", "abandon_reuse",
-                                                "stale_close",
-                                                "two_pools") else 0,
+                                                "stale_close", "two_pools",
+                                                "abandon_fail_reuse") else 0,
                         "t2": 1,
                         "bound": 1 if tier == "quick" else 2,
                         "budget": 3000 if tier == "quick" else 50000,
@@ -345,7 +409,13 @@ def run_dfs(case, ctx):
             complete = False
             break
         prefix = stack.pop()
-        s = run_under_shim(case, ctx, prefix + [0] * 0)
+        try:
+            s = run_under_shim(case, ctx, prefix + [0] * 0)
+        except sched.UnsupportedPrimitive as exc:
+            # the pool uses a synchronisation primitive the shim does not own:
+            # nothing can be concluded from schedules (stage `real` still runs)
+            ctx.label("unsupported-primitive")
+            raise Inconclusive(str(exc)) from exc
         runs += 1
         # the executed decisions: prefix, then fair-policy decisions
         taken, branching, pre = s.taken, s.branching, s.preemptible
